@@ -40,6 +40,7 @@ func runWiden(c *engine.Ctx, pts []npoint, scalars []scalar) {
 	runOrdUnreduced(c)
 	runBigmod(c)
 	runBackendOnly(c)
+	runMontgomery(c)
 }
 
 // ---------------------------------------------------------------------------------------------------------
